@@ -127,7 +127,7 @@ func (s *sim) drawFields(n int) []field {
 }
 
 // (names with a separator, so that joining an ID and a name with it is ambiguous)
-var fieldNames = []string{"a", "b", "c", "d", "e", "f", "g", "h", "k", "m", "n", "p", "q", "r", "s", "t", "u", "v", "w", "x", "y", "z", "a:b", "b:c", "a.b", "a_b", "A"}
+var fieldNames = []string{"a", "b", "c", "d", "e", "f", "g", "h", "k", "m", "n", "p", "q", "r", "s", "t", "u", "v", "w", "x", "y", "z", "a:b", "b:c", "a.b", "a_b", "A", "owner_id", "paid", "uuid", "identity"}
 
 func (s *sim) fieldName(taken map[string]bool) string {
 	for {
